@@ -294,7 +294,28 @@ def run(prog, ctx):
                 ctx.obs.append(ob)
     except Inconclusive as e:
         ctx.inconclusive("P3", "an absolute name is reported as given", "", str(e))
-    # (that the gate parses get_absolute_path(file_name) and read_file stores it as path is C06.G2 / C12.F7)
+    # the gate parses the absolute form of the name it was given, and the parser keeps what it was given as the object's path
+    from rules import common as _common
+    from sa.dataflow import ReachingDefs as _RD3
+    gate3 = prog.fn(_common.GATE)
+    pc3 = gate3.calls(_common.PARSER)
+    if len(pc3) == 1 and len(pc3[0].call_args()) > 1:
+        a3 = pc3[0].call_args()[1].strip()
+        ok3 = False
+        if a3.k == "DeclRefExpr" and a3.j.get("dk") == "local":
+            ds3 = [d for d in _RD3(gate3).reaching(a3.j["name"], pc3[0]) if d.rhs is not None]
+            ok3 = bool(ds3) and all(d.rhs.strip().k == "CallExpr" and d.rhs.strip().j.get("callee") == "get_absolute_path"
+                                    and query.refs_param(d.rhs.strip().call_args()[0], "file_name") for d in ds3)
+        elif a3.k == "CallExpr" and a3.j.get("callee") == "get_absolute_path":
+            ok3 = query.refs_param(a3.call_args()[0], "file_name")
+        if ok3:
+            ctx.ok("P3", "every file is parsed under the absolute form of its name", pc3[0].where, "%s(.., get_absolute_path(file_name), ..)" % _common.PARSER)
+        else:
+            ctx.fail("P3", "every file is parsed under the absolute form of its name", pc3[0].where,
+                     "the gate hands `%s` to %s(): files found through relative directory names keep a relative path (econf_getPath, the extended "
+                     "value's file and the error location report `usr/etc/app.conf`)" % (render(a3), _common.PARSER), key="gate-path-not-absolute")
+    else:
+        ctx.inconclusive("P3", "every file is parsed under the absolute form of its name", gate3.where, "parser call not found in the gate")
     # ---- P4 ------------------------------------------------------------------------------------------------------------
     L = parser.landmarks(prog)
     rf = L.fn
